@@ -219,7 +219,11 @@ func branchesOutcomes(a *ASpec, n *ANode, st AState, bs map[string]interface{}, 
 				anyReject = true
 			default:
 				nbs := withPermanent(c, o.Bs)
-				outs = append(outs, StepOutcome{To: &AState{Node: target(b, nbs), Bs: nbs}, Consumed: consumer, Emitted: emitted, Note: "guarded branch taken"})
+				note := "guarded branch taken"
+				if len(cands) > 1 {
+					note = "guard chose among several candidates"
+				}
+				outs = append(outs, StepOutcome{To: &AState{Node: target(b, nbs), Bs: nbs}, Consumed: consumer, Emitted: emitted, Note: note})
 			}
 		}
 		_ = anyReject
